@@ -425,3 +425,26 @@ Fixpoint exec (rows : Z) (cs : list cmd) (e : est) : option est :=
   end.
 Definition init_est (b : buf) : est := mk_est b init_vst regs0.
 Definition exec_prog (b : buf) (rows : Z) (cs : list cmd) : option est := exec rows cs (init_est b).
+
+(* ---------- reference vocabulary of the C08 theorems ---------- *)
+(* buffer order on positions *)
+Definition lex_le (r1 o1 r2 o2 : Z) : Prop := r1 < r2 \/ (r1 = r2 /\ o1 <= o2).
+Definition lex_leb (r1 o1 r2 o2 : Z) : bool := (r1 <? r2) || ((r1 =? r2) && (o1 <=? o2)).
+
+(* the two ends of a character-wise region in buffer order *)
+Definition ends (r1 o1 r2 o2 : Z) : Z * Z * Z * Z :=
+  if lex_leb r1 o1 r2 o2 then (r1, o1, r2, o2) else (r2, o2, r1, o1).
+(* the region vc_motion must hand to the operator for the cursor (r1, o1) and the motion target (r2, o2)
+   (o2 < 0: a line motion): line-wise = whole lines min..max; character-wise = from the earlier end
+   (passed through ren_noeol) to the later end, one character further for f F t T e E % unless the
+   later end is already at the end of its line; ordered *)
+Definition region_spec (b : buf) (k : mkey) (r1 o1 r2 o2 : Z) (g : region) : Prop :=
+  (o2 < 0 -> g_ln g = true /\ g_r1 g = Z.min r1 r2 /\ g_r2 g = Z.max r1 r2) /\
+  (0 <= o2 ->
+     let '(ra, oa, rb, ob) := ends r1 o1 r2 o2 in
+     g_ln g = false /\ g_r1 g = ra /\ g_r2 g = rb /\
+     g_o1 g = ren_noeol (getl b ra) oa /\
+     g_o2 g = (if incl_key k && (ob <? lbuf_eol b rb) then ob + 1 else ob) /\
+     lex_le (g_r1 g) (g_o1 g) (g_r2 g) (g_o2 g)).
+(* a register name that reg_put stores under itself: not upper case (append) and not the double quote *)
+Definition plain_reg (y : N) : Prop := c_isupper y = false /\ y <> 34%N.
